@@ -130,6 +130,55 @@ func c17Run(r *Run) {
 						covered[strings.TrimPrefix(exprStr(k), "reflect.")] = ctor
 					}
 				}
+				// the value handed to the script constructor is the reflect accessor's result itself
+				r.curRule = "C17-KIND"
+				for _, c := range sw.Body.List {
+					cc := c.(*ast.CaseClause)
+					if cc.List == nil {
+						continue
+					}
+					kinds := []string{}
+					for _, k := range cc.List {
+						kinds = append(kinds, strings.TrimPrefix(exprStr(k), "reflect."))
+					}
+					ast.Inspect(cc, func(m ast.Node) bool {
+						ce, ok := m.(*ast.CallExpr)
+						if !ok {
+							return true
+						}
+						cal, ok := calleeOf(info, ce).(*types.Func)
+						if !ok || cal.Pkg() == nil || cal.Pkg().Path() != modPath+"/data" || !strings.HasPrefix(cal.Name(), "New") || len(ce.Args) != 1 {
+							return true
+						}
+						arg := ast.Unparen(ce.Args[0])
+						for {
+							conv, ok := arg.(*ast.CallExpr)
+							if !ok || len(conv.Args) != 1 {
+								break
+							}
+							if tv, ok := info.Types[conv.Fun]; !ok || !tv.IsType() {
+								break
+							}
+							arg = ast.Unparen(conv.Args[0])
+						}
+						direct := false
+						if ac, ok := arg.(*ast.CallExpr); ok {
+							if se, ok := ast.Unparen(ac.Fun).(*ast.SelectorExpr); ok && isReflectValue(info.TypeOf(se.X)) {
+								switch se.Sel.Name {
+								case "Int", "Uint", "Float", "Bool", "String":
+									direct = true
+								}
+							}
+						}
+						key := fmt.Sprintf("%s#result-direct:%s", fk, strings.Join(kinds, ","))
+						if direct {
+							r.ok(key, ce.Pos(), "the script value is built from the reflect accessor's result (at most a Go numeric conversion)")
+						} else {
+							r.bad(key, ce.Pos(), fmt.Sprintf("%s(%s): the value given to the script is not the reflect accessor's result itself but a transformation of it: the script does not receive exactly what Go returned", cal.Name(), exprStr(ce.Args[0])))
+						}
+						return true
+					})
+				}
 				r.curRule = "C17-EXH"
 				groups := []struct {
 					name  string
